@@ -437,6 +437,131 @@ func hook(c rescorr.Case, ms *yang.Modules, errs []error, out *rescorr.GoOut) {
 			}), "t" + strconv.Itoa(bi), "dot"})
 		}
 	}
+	// ---- phase 2c: a bogus step INSERTED before step i of a valid path (every i, the rest unchanged,
+	// also appended after the last step), or put in the place of a step, with names from the
+	// structural pool: the module's own name and prefix, the names and prefixes of the other
+	// modules and submodules, its import prefixes, input/output, the names of its groupings,
+	// typedefs and identities, names of top-level nodes. And Entry.Path() itself as a lookup:
+	// "/<module>/<node>/…" is not a schema path (its first element names the module, not a node).
+	// In every case: nothing, unless the name happens to be a child of the node reached there.
+	poolOf := func(m *yang.Module) []string {
+		seen := map[string]bool{}
+		var pool []string
+		put := func(n string) {
+			if !unspellable(n) && !seen[n] {
+				seen[n] = true
+				pool = append(pool, n)
+			}
+		}
+		put(m.Name)
+		put(m.GetPrefix())
+		put("input")
+		put("output")
+		for _, t := range w.trees {
+			put(t.mod.Name)
+			put(t.mod.GetPrefix())
+		}
+		for _, i := range m.Import {
+			put(i.Name)
+			if i.Prefix != nil {
+				put(i.Prefix.Name)
+			}
+		}
+		for _, i := range m.Include {
+			put(i.Name)
+		}
+		for _, g := range m.Grouping {
+			put(g.Name)
+		}
+		for _, g := range m.Typedef {
+			put(g.Name)
+		}
+		for _, g := range m.Identity {
+			put(g.Name)
+		}
+		for _, k := range lib.SortedKeys(yang.ToEntry(m).Dir) {
+			put(k)
+		}
+		return pool
+	}
+	pools := map[int][]string{}
+	// isChildOf: would the step `name` lead somewhere from e? (then the lookup is not a corrupted one)
+	isChildOf := func(e *yang.Entry, name string) bool {
+		if e.RPC != nil {
+			return name == "input" || name == "output"
+		}
+		_, ok := e.Dir[name]
+		return ok
+	}
+	for bi, b := range w.nodes {
+		bt := w.trees[b.tree]
+		own := bt.mod.GetPrefix()
+		if bt.mod.BelongsTo != nil || own == "" || limitOf(b) != "" || b.viaRP {
+			continue
+		}
+		if _, ok := pools[b.tree]; !ok {
+			pools[b.tree] = poolOf(bt.mod)
+		}
+		pool := pools[b.tree]
+		rootIdx := w.idx[bt.root]
+		rootCtx := treeRef(bt.mod)
+		L := len(b.names)
+		reachedAt := func(i int) *yang.Entry { return ancestor(b.e, L-i) } // the node before step i
+		build := func(pfx string, i int, name string, replace bool) string {
+			var parts []string
+			for j, n := range b.names {
+				if j == i {
+					parts = append(parts, spell(pfx, name))
+					if replace {
+						continue
+					}
+				}
+				parts = append(parts, spell(pfx, n))
+			}
+			if i == L {
+				parts = append(parts, spell(pfx, name))
+			}
+			return "/" + strings.Join(parts, "/")
+		}
+		for i := 0; i <= L; i++ {
+			var names []string
+			if i == 0 { // the module's own name in first position, always
+				names = append(names, bt.mod.Name)
+			}
+			names = append(names, pool[r.Intn(len(pool))])
+			for _, nm := range names {
+				if isChildOf(reachedAt(i), nm) {
+					continue
+				}
+				qs = append(qs, query{rootIdx, rootCtx, build(own, i, nm, false), "nil", "insert-step"})
+				if i == 0 {
+					// the same without prefixes, and from every other module under the prefix it has for this one
+					qs = append(qs, query{rootIdx, rootCtx, build("", i, nm, false), "nil", "insert-step"})
+					for t2, tr2 := range w.trees {
+						if t2 == b.tree {
+							continue
+						}
+						if pf, _ := prefixesFor(ms, tr2.mod, bt.mod); len(pf) > 0 {
+							qs = append(qs, query{w.idx[tr2.root], tr2.ref, build(pf[r.Intn(len(pf))], i, nm, false), "nil", "insert-step"})
+						}
+					}
+				}
+			}
+		}
+		if L > 0 {
+			i := r.Intn(L)
+			if nm := pool[r.Intn(len(pool))]; !isChildOf(reachedAt(i), nm) {
+				qs = append(qs, query{rootIdx, rootCtx, build(own, i, nm, true), "nil", "replace-step"})
+			}
+		}
+		// Path() of the node, as a lookup, from the root and from the node itself
+		if !isChildOf(bt.root, bt.mod.Name) {
+			qs = append(qs, query{rootIdx, rootCtx, b.e.Path(), "nil", "path-literal"})
+			if bctx := ctxOf(b); bctx != nil && bi%3 == 0 {
+				qs = append(qs, query{bi, treeRef(bctx), b.e.Path(), "nil", "path-literal"})
+			}
+		}
+	}
 	// ---- phase 2b: a step spelled like a deeper descendant (one that is reachable only through
 	// further steps: a choice and its case, a container, an rpc's input) names no child
 	skipDone := map[string]bool{}
@@ -998,7 +1123,7 @@ func main() {
 	}
 	res.Evaluations = t.queries
 	res.DistinctNontrivial = t.triples.Len()
-	res.Rule = "hand-written corpus (the Lean example forest, submodules, grouping copies from other modules, implicit cases, absent rpc/action input and output, the documented-limit witnesses D17-L1, the rejected augment into an rpc node) + seeded grammar-directed module sets (harness/gen; 3/4 without deliberate faults; 3/8 with prefixes re-assigned so that import prefixes and own prefixes collide with module names (name of another import before or after it, own module name, mutual) and shuffled import order; 3/8 with bare nodes grafted by importing modules directly into foreign choices (their implied cases are start nodes whose prefix context is the augmenting module); 1/4 with added late augments: target through or at the implied case of a shorthand choice member, body with shorthand choice members, written in the owning module, a submodule or an importing module); per error-free set all (start, target) pairs of nodes of all module and submodule trees up to 40 nodes (sampled beyond) x absolute path under every prefix the start's context module binds to the target's module (3 spellings) and relative path, + one-corrupted-step paths (unknown name, empty step, bogus below rpc, step below a leaf, `..` above the root, unbound prefix, an imported module's name used as prefix, and every name of a deeper descendant used as a direct step, absolute and relative), + creation of absent rpc inputs/outputs; evaluations = Find calls compared with the model; distinct_nontrivial = distinct (set, start, target) triples looked up with a path of at least 2 steps"
+	res.Rule = "hand-written corpus (the Lean example forest, submodules, grouping copies from other modules, implicit cases, absent rpc/action input and output, the documented-limit witnesses D17-L1, the rejected augment into an rpc node) + seeded grammar-directed module sets (harness/gen; 3/4 without deliberate faults; 3/8 with prefixes re-assigned so that import prefixes and own prefixes collide with module names (name of another import before or after it, own module name, mutual) and shuffled import order; 3/8 with bare nodes grafted by importing modules directly into foreign choices (their implied cases are start nodes whose prefix context is the augmenting module); 1/4 with added late augments: target through or at the implied case of a shorthand choice member, body with shorthand choice members, written in the owning module, a submodule or an importing module); per error-free set all (start, target) pairs of nodes of all module and submodule trees up to 40 nodes (sampled beyond) x absolute path under every prefix the start's context module binds to the target's module (3 spellings) and relative path, + one-corrupted-step paths (unknown name, empty step, bogus below rpc, step below a leaf, `..` above the root, unbound prefix, an imported module's name used as prefix, a step inserted before or put in place of any step with names from the structural pool (module names and prefixes, input/output, grouping/typedef/identity names), Entry.Path() used as a lookup, and every name of a deeper descendant used as a direct step, absolute and relative), + creation of absent rpc inputs/outputs; evaluations = Find calls compared with the model; distinct_nontrivial = distinct (set, start, target) triples looked up with a path of at least 2 steps"
 	res.Distribution["sets_compared"] = t.sets
 	res.Distribution["sets_without_trees(errors/parse)"] = t.noTrees
 	res.Distribution["outside_model"] = t.outside
